@@ -128,11 +128,57 @@ def run_case(c):
   return out
 
 
+class Stack(nn.Module):
+  """stamps out copies of a template module given as an attribute with the public Module.copy()"""
+  template: Any = None
+  names: tuple = ()
+
+  @nn.compact
+  def __call__(self, x):
+    for nm in self.names:
+      m = self.template.copy(name=nm) if nm is not None else self.template.copy()
+      x = m(x)
+    return x
+
+
+def build_desc(d):
+  if d['kind'] == 'leaf':
+    return Leaf(w=d['w'])
+  if d['kind'] == 'wrap':
+    return Wrap(inner=build_desc(d['inner']), w=d['w'])
+  return Pair(inner=build_desc(d['inner']), inner2=build_desc(d['inner2']), w=d['w'])
+
+
+def run_copy_case(c):
+  tmpl = build_desc(c['template'])
+  top = Stack(template=tmpl, names=tuple(c['names']))
+  x = jnp.asarray(c['x'], dtype=jnp.int64)
+  y, variables = top.init_with_output(jax.random.key(0), x)
+  variables = flax.core.unfreeze(variables)
+  out = {'y_init': int(y), 'counts': leaves(variables.get('count', {}), 'n'), 'params': leaves(variables.get('params', {}), 'w')}
+  y2, upd = top.apply(variables, x, mutable=['count'])
+  out['y_apply'] = int(y2)
+  out['counts_apply'] = leaves(flax.core.unfreeze(upd)['count'], 'n')
+  sh = jax.eval_shape(top.init, jax.random.key(0), x)
+  out['shape_paths'] = sorted(p for p, _ in leaves(jax.tree_util.tree_map(lambda a: 0, flax.core.unfreeze(sh)).get('params', {}), 'w'))
+  # every copy applied on its own subtree, with a fresh unbound template, on the value it receives inside the parent
+  alone = []
+  for nm, xin in zip(c['resolved_names'], c['inputs_apply']):
+    try:
+      sub = {col: variables[col][nm] for col in ('params', 'count')}
+      ys_, _ = build_desc(c['template']).apply(sub, jnp.asarray(xin, dtype=jnp.int64), mutable=['count'])
+      alone.append(int(ys_))
+    except Exception as e:  # pylint: disable=broad-except
+      alone.append({'err': type(e).__name__, 'msg': str(e)[:160]})
+  out['alone'] = alone
+  return out
+
+
 def main(payload):
   res = []
   for c in payload['cases']:
     try:
-      res.append({'ok': run_case(c)})
+      res.append({'ok': run_copy_case(c) if 'template' in c else run_case(c)})
     except Exception as e:  # pylint: disable=broad-except
       import traceback
       res.append({'err': type(e).__name__, 'msg': str(e)[:200], 'tb': traceback.format_exc()[-600:]})
